@@ -10,6 +10,18 @@ def optShape : Option (List Nat) → String
   | some s => s!"ok {fmtNats s}"
   | none => "nothing"
 
+def optArr : Option ArrV → String
+  | some (s, d) => s!"ok shape={fmtNats s} data={fmtNats d}"
+  | none => "nothing"
+
+/-- `a,b` or `a,b,c` with `N` for an absent entry -/
+def parseSlice (t : String) : Option (Option Nat × Option Nat × Option Nat) :=
+  let f : String → Option (Option Nat) := fun x => if x == "N" then some none else x.toNat?.map some
+  match t.splitOn "," with
+  | [x, y] => do pure (← f x, ← f y, none)
+  | [x, y, z] => do pure (← f x, ← f y, ← f z)
+  | _ => none
+
 def natsOfInts (l : List Int) : Option (List Nat) :=
   l.mapM (fun x => if x < 0 then none else some x.toNat)
 
@@ -79,6 +91,37 @@ def handle : Handler := fun op a =>
       let s ← a.nats "shape"
       let pw ← a.nats "pad_width"
       pure (optShape (pad s pw))
+  | "k9_slice" => orBad do
+      let s ← a.nats "shape"
+      let s0 ← (a.get? "s0").bind parseSlice
+      let s1 ← (a.get? "s1").bind parseSlice
+      match s with
+      | [n0, n1] => pure s!"ok {fmtNats [sliceLen n0 s0.1 s0.2.1 s0.2.2, sliceLen n1 s1.1 s1.2.1 s1.2.2]}"
+      | _ => none
+  | "k9v_transpose" => orBad do
+      let s ← a.nats "x"
+      let ax ← a.optInts "axes"
+      match ax with
+      | none => pure (optArr (vTranspose s none))
+      | some l => match natsOfInts l with
+        | some n => pure (optArr (vTranspose s (some n)))
+        | none => pure "nothing"
+  | "k9v_reshape" => orBad do
+      let s ← a.nats "x"
+      let d ← a.ints "newshape"
+      pure (optArr (vReshape s d))
+  | "k9v_tile" => orBad do
+      let s ← a.nats "x"
+      let r ← a.nats "reps"
+      pure (optArr (some (vTile s r)))
+  | "k9v_add" => orBad do
+      let s ← a.nats "x"
+      let t ← a.nats "y"
+      pure (optArr (vAdd s t))
+  | "k9v_sum" => orBad do
+      let s ← a.nats "x"
+      let ax ← a.int "axis"
+      pure (optArr (vSum s ax))
   | "k9_bvec" => orBad do
       -- the bounded-vector model itself, for the utl::static_vector cases of the matrix
       let cap ← a.nat "cap"
